@@ -666,6 +666,8 @@ func main() {
 	fmt.Printf("ctyextract: %d Lean definitions translated from cty/set (Set.Add/Remove/Has/Copy/Values/Length/EachValue, set algebra)\n", translateSetFns(*repo, *leanDir, hdr)) // C03 (translate_set.go)
 	fmt.Printf("ctyextract: %d Lean definitions translated from cty/gocty/out.go (fromCtyNumber and its four decoders, fromCtyBool, fromCtyString, likelyRequiredTypesError)\n", translateGoctyFns(*repo, *leanDir, hdr)) // C18 (translate_gocty.go)
 	fmt.Printf("ctyextract: %d Lean definitions translated from cty/msgpack/unknown.go (marshalUnknownValue, unmarshalUnknownValue)\n", translateMpUnknownFns(*repo, *leanDir, hdr)) // C16/C17 (translate_mpunknown.go)
+	fmt.Printf("ctyextract: %d Lean definitions translated from cty/value_init.go, null.go, unknown.go (ListVal, TupleVal, MapVal, ObjectVal, SetVal and the other constructors)\n", translateConsFns(*repo, *leanDir, hdr)) // C06 (translate_cons.go)
+	fmt.Printf("ctyextract: %d Lean definitions translated from cty/json/marshal.go (marshal, marshalDynamic)\n", translateJsonMarshalFns(*repo, *leanDir, hdr)) // C15 (translate_jsonmarshal.go)
 	// the path machinery of cty/path.go and cty/path_set.go, translated (translate_path.go)
 	fmt.Printf("ctyextract: %d Lean definitions translated from cty/path.go, cty/path_set.go, cty/walk.go (steps, Path.Apply/LastStep/Equals/HasPrefix, pathSetRules, PathSet, Walk)\n", translatePathFns(*repo, *leanDir, hdr))
 	fmt.Printf("ctyextract: %d Lean definitions translated from cty/marks.go (the marks API: Mark/Unmark/WithMarks/…, the deep variants and their transformers)\n", translateMarksFns(*repo, *leanDir, hdr)) // C04 (translate_marks.go)
